@@ -7,6 +7,8 @@ import sys
 import common
 import gen
 
+TWINS = ['salt', 'weights']      # harness/twins.py: which part of a twin text carries the difference
+
 CHILDREN = {"quick": 6, "thorough": 48}
 OPS = {"quick": 250, "thorough": 3000}
 
